@@ -8,6 +8,8 @@ Hence steps of two different workers commute on everything but the ghost histori
 Also: additivity of the time slice in its attempt budget (`slice_add`).
 -/
 namespace QM.Sys
+set_option linter.unusedSectionVars false
+variable [Cfg]
 
 /-! ### time-slice additivity -/
 
